@@ -80,8 +80,8 @@ def cli_layer(ctx, root):
     rng = ctx.rng
     files = {"a.cgt": GOOD_A, "b.cgt": GOOD_B, "c.noeol": GOOD_NOEOL, "bad.cgt": BAD_PARSE, "calcbad.cgt": BAD_CALC,
              "my.ledger.cgt": GOOD_A, "noext": GOOD_B, ".hidden": GOOD_B, "sub.d/x.cgt": GOOD_A, "sub.d/noext": GOOD_B, "empty.cgt": b"", "dots.": GOOD_B}
-    schwab_tx = open("/repo/tests/schwab/synthetic-transactions.json", "rb").read() if os.path.exists("/repo/tests/schwab/synthetic-transactions.json") else b"{}"
-    schwab_aw = open("/repo/tests/schwab/synthetic-awards.json", "rb").read() if os.path.exists("/repo/tests/schwab/synthetic-awards.json") else b"{}"
+    schwab_tx = open(build.REPO + "/tests/schwab/synthetic-transactions.json", "rb").read() if os.path.exists(build.REPO + "/tests/schwab/synthetic-transactions.json") else b"{}"
+    schwab_aw = open(build.REPO + "/tests/schwab/synthetic-awards.json", "rb").read() if os.path.exists(build.REPO + "/tests/schwab/synthetic-awards.json") else b"{}"
     files["s.json"] = schwab_tx; files["aw.json"] = schwab_aw; files["junk.json"] = b"{not json"
     scen = []
     for i in range(ctx.n(70, 1200)):
@@ -106,6 +106,16 @@ def cli_layer(ctx, root):
             sc["awards"] = rng.choice([None, "aw.json", "aw.json", "none.json", "junk.json"])
             sc["output"] = rng.choice(out_choices)
         scen.append(sc)
+    # every stage at which a command can fail, against an --output path that exists and one that does not, in every format
+    fixed = []
+    for out in ("old.txt", "out.txt"):
+        for ex, aw in (("s.json", "junk.json"), ("s.json", "none.json"), ("junk.json", None), ("nope.json", None), ("a.cgt", "aw.json")):
+            fixed.append({"kind": "convert", "export": ex, "awards": aw, "output": out})
+        for fl, yr, fx in ((["nope.cgt"], None, None), (["a.cgt", "bad.cgt"], None, None), (["calcbad.cgt"], None, None), (["a.cgt"], 1800, None), (["a.cgt"], None, "nofolder"), (["sub.d"], None, None)):
+            for fm in ("plain", "json", "pdf"):
+                fixed.append({"kind": "report", "files": fl, "format": fm, "year": yr, "output": out, "fx": fx})
+    for i, sc in enumerate(fixed):
+        sc.update({"id": "cx%d" % i, "pre": [], "nowrite": []}); scen.append(sc)
     # oracles: what the computations give on these inputs (library, through the harness)
     def joined(fl):
         cs = []
@@ -237,8 +247,8 @@ def k_c15(ctx):
         elif mm["error_lines"] != rr["error_lines"]:
             ctx.violation("correspondence K.C15.validate broken: model %s, code %s" % (mm["error_lines"], rr["error_lines"]), {"txns": spec, "model": mm, "code": rr, "correspondence": "K.C15.validate"}, found_input=False)
     # (b) arbitrary bytes and hostile ledgers through the library
-    seeds = [open(p, "rb").read() for p in sorted(glob.glob("/repo/tests/inputs/*.cgt"))[:20]] + [open(p, "rb").read() for p in sorted(glob.glob("/repo/tests/schwab/*.json"))[:4]]
-    seeds += [open(p, "rb").read() for p in sorted(glob.glob("/repo/crates/cgt-money/resources/rates/2024-0*.xml"))[:2]]
+    seeds = [open(p, "rb").read() for p in sorted(glob.glob(build.REPO + "/tests/inputs/*.cgt"))[:20]] + [open(p, "rb").read() for p in sorted(glob.glob(build.REPO + "/tests/schwab/*.json"))[:4]]
+    seeds += [open(p, "rb").read() for p in sorted(glob.glob(build.REPO + "/crates/cgt-money/resources/rates/2024-0*.xml"))[:2]]
     bc = {}
     for pth in sorted(glob.glob(os.path.join(build.ROOT, "corpus", "*"))):      # reproducers of known findings run first
         bc["corpus:" + os.path.basename(pth)] = open(pth, "rb").read()
